@@ -67,7 +67,7 @@ func c12Gen(t *rapid.T, tier Tier) interface{} {
 	for i, n := 0, rapid.IntRange(0, 3).Draw(t, "nrules"); i < n; i++ {
 		r := C12Rule{Margin: -1}
 		r.Name = rapid.SampledFrom([]string{"", "", "a", "b"}).Draw(t, "rname")
-		r.Pseudo = rapid.SampledFrom([]string{"", "first", "left", "right", "blank"}).Draw(t, "rpseudo")
+		r.Pseudo = rapid.SampledFrom([]string{"", "first", "left", "right", "blank", "nth(2)", "nth(2n+1)", "nth(n+3)", "nth(-n+2)", "nth(-2n+5)", "nth(even)"}).Draw(t, "rpseudo")
 		if r.Name == "" && r.Pseudo == "" {
 			r.Pseudo = "first"
 		}
@@ -80,7 +80,7 @@ func c12Gen(t *rapid.T, tier Tier) interface{} {
 		if rapid.IntRange(0, 2).Draw(t, "rtwo") == 0 {
 			r.Two = true
 			r.Name2 = rapid.SampledFrom([]string{"", "a", "b"}).Draw(t, "rname2")
-			r.Pseudo2 = rapid.SampledFrom([]string{"", "first", "left", "right", "blank"}).Draw(t, "rpseudo2")
+			r.Pseudo2 = rapid.SampledFrom([]string{"", "first", "left", "right", "blank", "nth(-n+3)", "nth(3n)"}).Draw(t, "rpseudo2")
 			if r.Name2 == "" && r.Pseudo2 == "" {
 				r.Pseudo2 = "left"
 			}
@@ -302,6 +302,9 @@ func c12Observe(r *wr.Rendered) ([]c12Page, string) {
 	return pages, ""
 }
 
+// :nth() page selectors of the generator: a, b of an+b
+var c12Nth = map[string][2]int{"nth(2)": {0, 2}, "nth(2n+1)": {2, 1}, "nth(n+3)": {1, 3}, "nth(-n+2)": {-1, 2}, "nth(-2n+5)": {-2, 5}, "nth(even)": {2, 0}, "nth(-n+3)": {-1, 3}, "nth(3n)": {3, 0}}
+
 // c12Expected geometry: the @page cascade (css-page-3 section 5: specificity (name, :first/:blank, :left/:right), then order).
 func c12Geometry(c *C12Case, pg c12Page) (w, h, m int) {
 	type cand struct {
@@ -328,11 +331,21 @@ func c12Geometry(c *C12Case, pg c12Page) (w, h, m int) {
 				return false, [3]int{}
 			}
 		}
+		if a, b, ok := c12Nth[pseudo][0], c12Nth[pseudo][1], strings.HasPrefix(pseudo, "nth("); ok {
+			// the page number (from 1) is a*n + b for some n >= 0
+			hit := false
+			for n := 0; n <= 200 && !hit; n++ {
+				hit = a*n+b == pg.index+1
+			}
+			if !hit {
+				return false, [3]int{}
+			}
+		}
 		sp := [3]int{}
 		if name != "" {
 			sp[0] = 1
 		}
-		if pseudo == "first" || pseudo == "blank" {
+		if pseudo == "first" || pseudo == "blank" || strings.HasPrefix(pseudo, "nth(") {
 			sp[1] = 1
 		}
 		if pseudo == "left" || pseudo == "right" {
